@@ -24,7 +24,6 @@ import (
 	"os"
 	"path/filepath"
 	"regexp"
-	"runtime"
 	"runtime/debug"
 	"sort"
 	"strings"
@@ -808,7 +807,7 @@ func c07Bounds() *vgBounds {
 
 func c07BoundsText(b *vgBounds) string {
 	return fmt.Sprintf("objects<=%d; edges per package size %v (-1 = every subset, one form per ordered pair); exported objects per size <=%v; all %d reference forms below %d objects, the %d core forms from there on",
-		b.MaxN, b.MaxEdges[1:], b.MaxExp[1:], int(vfNumForms), b.CoreFrom, int(vfNumForms)-8)
+		b.MaxN, b.MaxEdges[1:], b.MaxExp[1:], int(vfNumForms)-1, b.CoreFrom, int(vfNumForms)-1-8)
 }
 
 // ---------------------------------------------------------------------------------------------
